@@ -68,10 +68,16 @@ func (a *AllocationRecord) UnmarshalJSON(data []byte) error {
 	if err := json.Unmarshal(data, &aux); err != nil {
 		return err
 	}
-	_, ipNet, err := net.ParseCIDR(aux.Prefix)
+	ip, ipNet, err := net.ParseCIDR(aux.Prefix)
 	if err != nil {
 		return fmt.Errorf("invalid prefix: %w", err)
 	}
+	// Keep the address exactly as it was saved (ParseCIDR masks the network's IP); the
+	// by-IP index of the store is keyed by this address
+	if v4 := ip.To4(); v4 != nil {
+		ip = v4
+	}
+	ipNet.IP = ip
 	a.Prefix = ipNet
 	return nil
 }
